@@ -172,6 +172,27 @@ def check_property_file(pid):
     return True, "%d theorems, all closed under the global context" % n_print, n_print
 
 
+def stage_coqchk(pid, timeout=2400):
+    """thorough tier: re-check the compiled property file and everything it depends on with the independent checker and
+    list the axioms; cached by the hash of every .v file of the development"""
+    h = hashlib.sha256()
+    for f in coq_files():
+        h.update(open(os.path.join(COQ, f), "rb").read())
+    cache = os.path.join(ROOT, "runner", "_build", "coqchk.%s.%s.txt" % (pid, h.hexdigest()[:16]))
+    if os.path.exists(cache):
+        out = open(cache).read()
+    else:
+        with Lock(".coq.lock"):
+            rc, out = run(["timeout", str(timeout), "coqchk", "-silent", "-o", "-R", "gen", "RSCP", "-R", "golden", "RSCP", "-R", "theories", "RSCP",
+                           "-R", "properties", "RSCP", "RSCP." + pid], cwd=COQ, timeout=timeout + 60)
+        out = "rc=%d\n%s" % (rc, out)
+        os.makedirs(os.path.dirname(cache), exist_ok=True)
+        open(cache, "w").write(out)
+    ok = out.startswith("rc=0") and "* Axioms: <none>" in out
+    m = re.search(r"\* Axioms:.*?(?=\n\* |\Z)", out, flags=re.S)
+    return ok, (m.group(0).strip() if m else out[-800:])
+
+
 def first_error(makelog):
     m = re.search(r'File "\./([^"]+)", line (\d+).*?\nError:(.*?)(?:\n\n|\nmake)', makelog, flags=re.S)
     if m:
